@@ -812,6 +812,9 @@ func main() {
 			res.Notes = append(res.Notes, "replay has no call sequence (static finding); re-run ./check C14 to re-evaluate the obligation")
 			return
 		}
+		if replayScenarios(f.History, res) { // "sched <scenario>" / "idle <scenario>" (sched.go, idle.go)
+			return
+		}
 		if f.History[0] == "pile" {
 			drv, err := hx.StartDriver("lockpile")
 			if err != nil {
@@ -851,7 +854,7 @@ func main() {
 		res.Report(hx.Finding{Kind: "mismatch", Property: "C14", What: "cannot start drv_lockskel: " + err.Error(),
 			Name: "driver lockskel", Sig: "driver-lockskel"})
 	} else {
-		for _, q := range []string{"stats", "files", "skipped", "declared", "inlined"} {
+		for _, q := range []string{"stats", "files", "skipped", "declared", "inlined", "needsnocaller", "eitherlock"} {
 			a, err := drv.Ask(q)
 			if err != nil {
 				res.Report(hx.Finding{Kind: "mismatch", Property: "C14", What: err.Error(), Name: "driver lockskel", Sig: "driver-lockskel"})
@@ -885,6 +888,12 @@ func main() {
 		if a, err := drv.Ask("edges"); err == nil {
 			for _, e := range splitList(a) {
 				res.Count("acquired-while-holding: " + e)
+			}
+		}
+		if a, err := drv.Ask("txviolations"); err == nil {
+			for _, e := range splitList(a) {
+				res.Report(hx.Finding{Kind: "mismatch", Property: "C14", Name: "BbRe.Properties.C14Generated.transactions_ok",
+					What: "transaction (check-then-act) obligation fails: " + e, Sig: hx.Sig("C14", "tx", e)})
 			}
 		}
 		if a, err := drv.Ask("orderviolations"); err == nil {
@@ -930,6 +939,9 @@ func main() {
 			res.History(h, true)
 		}
 	}
+	// 2b. scenario runs on the real scheduler and IdleInvoker under the same monitor
+	runSchedScenarios(o, res, checkerBad, demonstrated)
+	runIdleScenarios(o, res, checkerBad, demonstrated)
 	// checker findings that no catalogued call sequence demonstrates
 	for fn, e := range checkerBad {
 		if !demonstrated[fn] {
